@@ -18,6 +18,9 @@ type SimSink struct {
 	FailAt int
 	// FailErr is the error a failing Write returns (default ErrInjectedWrite).
 	FailErr error
+	// Transient: only one Write fails (short, with FailErr); the sink accepts everything again
+	// afterwards, as a descriptor that reported EAGAIN once does.
+	Transient bool
 	Log     *Log
 	// Gate, if set, is called on entry of every Write (before anything is recorded) and
 	// may park the caller; used by the actor scheduler.
@@ -67,6 +70,9 @@ func (s *SimSink) Write(p []byte) (int, error) {
 			s.OnFail()
 		}
 		s.Failed++
+		if s.Transient {
+			s.FailAt = -1
+		}
 		if len(p) > 0 {
 			s.FailedHeads = append(s.FailedHeads, p[0])
 		}
